@@ -1,5 +1,5 @@
 (* C04 — crop returns exactly the smallest index box containing the world points *)
-From NDV Require Import M_Crop P_Crop.
+From NDV Require Import M_Crop P_Crop P_CropAgain.
 Open Scope Z_scope.
 
 (* on every touched axis the emitted item selects exactly the positions from the smallest to the largest
@@ -48,6 +48,21 @@ Print Assumptions C04_item.
 Theorem C04_rounding : forall q, (inject_Z (round_half_up q) - (1 # 2) <= q < inject_Z (round_half_up q) + (1 # 2))%Q.
 Proof. exact round_half_up_spec. Qed.
 Print Assumptions C04_rounding.
+
+(* cropping the RESULT again with the same points changes nothing: in the cropped frame every index is the old one
+   minus the region's start (C04_rounding_shift: nearest-pixel rounding commutes with the integer shift the sliced
+   WCS applies), the second region corresponds element for element to the first and is the whole cropped axis *)
+Theorem C04_recrop : forall idxs kd kd' len x, idxs <> [] -> Forall (fun i => 0 <= i < len) idxs ->
+  let lo := zmin_l (tl idxs) (hd 0 idxs) in let hi := zmax_l (tl idxs) (hd 0 idxs) in
+  let len' := hi - lo + 1 in
+  (selects len (axis_item len idxs kd) x <-> selects len' (axis_item len' (map (fun i => i - lo) idxs) kd') (x - lo))
+  /\ (selects len' (axis_item len' (map (fun i => i - lo) idxs) kd') (x - lo) <-> 0 <= x - lo < len').
+Proof. exact axis_item_recrop. Qed.
+Print Assumptions C04_recrop.
+
+Theorem C04_rounding_shift : forall q c, round_half_up (q - inject_Z c) = round_half_up q - c.
+Proof. exact round_half_up_shift. Qed.
+Print Assumptions C04_rounding_shift.
 
 Example C04_nonvacuous :
   crop_item [6; 6; 6] [[3; 1; 2]; []; [4]] false = Ok [ISlice (Some 1) (Some 4) None; full_slice; IInt 4]
